@@ -24,6 +24,8 @@ type retInfo struct {
 	results []SV
 	ord     int
 	pos     token.Pos
+	blk     *ssa.BasicBlock
+	instr   ssa.Instruction
 }
 
 type loopInv struct {
